@@ -152,9 +152,13 @@ def size(spec):
     return 1 + sum(size(c) for c in spec[3])
 
 
-def build(spec, ids=None, parent=None):
-    """Build real Nodes from a spec.  ids: optional list used as a counter for explicit ids."""
-    if ids is not None:
+def build(spec, ids=None, parent=None, same_id=None, insert=False):
+    """Build real Nodes from a spec.  ids: optional list used as a counter for explicit ids; same_id: every node gets
+    this one id (distinct objects sharing an id, as two loads of one JSON text produce); insert: children are attached
+    with add_child(child, index) instead of appended."""
+    if same_id is not None:
+        n = Node(spec[0], id=same_id)
+    elif ids is not None:
         nid = f"w{ids[0]}"
         ids[0] += 1
         n = Node(spec[0], id=nid)
@@ -164,8 +168,13 @@ def build(spec, ids=None, parent=None):
         n.content = spec[1]
     for k, v in spec[2].items():
         n.add_attribute(k, v)
-    for c in spec[3]:
-        n.add_child(build(c, ids, n))
+    if insert:
+        kids = [build(c, ids, n, same_id, insert) for c in spec[3]]
+        for c in reversed(kids):
+            n.add_child(c, 0)
+    else:
+        for c in spec[3]:
+            n.add_child(build(c, ids, n, same_id, insert))
     return n
 
 
